@@ -1320,12 +1320,35 @@ def rule_comparator_ties(model):
         seen.add(id(fn))
         n += 1
         rets = [y for y in own_nodes(fn.node) if isinstance(y, ast.Return)]
-        ok = len(rets) == 1 and isinstance(rets[0].value, ast.Call) and \
-            len(rets[0].value.args) == 2 and all(
-                isinstance(a, ast.Call) and isinstance(
+
+        def folded_compare(call, g, strs):
+            # cmpfunc(a.lower(), b.lower()) over exactly the two strings
+            return isinstance(call, ast.Call) and len(call.args) == 2 and \
+                all(isinstance(a, ast.Call) and isinstance(
                     a.func, ast.Attribute) and a.func.attr in (
-                    'lower', 'casefold', 'upper')
-                for a in rets[0].value.args)
+                    'lower', 'casefold', 'upper') and
+                    norm(a.func.value) in strs for a in call.args) and \
+                len({norm(a.func.value) for a in call.args}) == 2
+        ps_ = fn.params()[:2]
+        ok = len(rets) == 1 and folded_compare(rets[0].value, fn, ps_)
+        if not ok and len(rets) == 1 and isinstance(
+                rets[0].value, ast.Call):
+            # ... or a shared helper that does exactly that with the two
+            # strings it is handed
+            c_ = rets[0].value
+            for t in model.resolve_callee(c_.func, fn):
+                if t[0] != 'func':
+                    continue
+                h = t[1]
+                hp = h.params()
+                hr = [y for y in own_nodes(h.node)
+                      if isinstance(y, ast.Return)]
+                pos = [i for i, a_ in enumerate(c_.args)
+                       if norm(a_) in ps_]
+                if len(hr) == 1 and len(pos) == 2 and all(
+                        i < len(hp) for i in pos) and folded_compare(
+                        hr[0].value, h, [hp[i] for i in pos]):
+                    ok = True
         r.instance(fn.where, rets[0] if rets else fn.node.name,
                    'compares the folded strings only' if ok
                    else 'MORE THAN THE FOLDED STRINGS')
@@ -1499,8 +1522,8 @@ def rule_effective_spec(model):
 RULES_PLAIN = [rule_mutation, rule_stability, rule_predicate, rule_twins,
                rule_direction, rule_pair_key, rule_effective_spec,
                rule_comparator_ties, rule_none_keys]
-RULES = [_inl(r_) if r_ is rule_effective_spec else r_
-         for r_ in RULES_PLAIN]
+RULES = [_inl(r_) if r_ in (rule_effective_spec, rule_comparator_ties)
+         else r_ for r_ in RULES_PLAIN]
 EXPLANATION = (
     'Flow-sensitive may-alias analysis of caller data against every '
     'mutating operation in DT_In/DT_InSV; keyed-sort query; predicate '
